@@ -93,7 +93,9 @@ pub fn program_to_horn(p: &Program) -> Option<Sexp> {
     let mut co = vec![];
     for (id, t) in &p.trait_data {
         let f = &t.flags;
-        if f.auto || f.marker || f.fundamental || t.well_known.is_some() || !t.associated_ty_ids.is_empty() {
+        // (`#[marker]` only switches the overlap check off, chalk-solve/src/coherence/solve.rs: the
+        // clauses of a marker trait's impls are those of an ordinary trait)
+        if f.auto || f.fundamental || t.well_known.is_some() || !t.associated_ty_ids.is_empty() {
             return None;
         }
         if !t.binders.skip_binders().where_clauses.is_empty() {
